@@ -212,8 +212,22 @@ func (w *c13world) gen(d int) *c13m {
 			ip = c13interpC{base}
 		case 2:
 			ip = c13interpT{base}
+			if m.id%2 == 0 {
+				// the same capabilities assembled from the library's own function adapters (ast.InterpreterFunc for the
+				// evaluation, parsley.NodeTransformFunc for the transformer) - for every node shape, empty ones included
+				ip = struct {
+					ast.InterpreterFunc
+					parsley.NodeTransformFunc
+				}{base.Eval, c13interpT{base}.TransformNode}
+			}
 		case 3:
 			ip = c13interpCT{c13interpC{base}}
+			if m.id%2 == 0 {
+				ip = struct {
+					c13interpC
+					parsley.NodeTransformFunc
+				}{c13interpC{base}, c13interpT{base}.TransformNode}
+			}
 		}
 	}
 	n := w.r.Intn(5)
